@@ -55,6 +55,14 @@ def operator_matrix():
                 out.append(f"fn main() {{ let c = {c}; let i = {i}; println(c.repeat(i % 5).len()); }}")
         out.append(f"fn main() {{ let c = {c}; println(c.len()); for x in c {{ print(x, \"\"); }} println(c[c.len() - 1]); }}")
         out.append(f"fn main() {{ let c = {c}; println(c[c.len()]); }}")
+    # every list member on lists of every element kind (the analyzer decides which exist; what it accepts must run)
+    elems = {"int": "[3, 1, 2]", "float": "[2.5, 0.5]", "bool": "[true, false]", "str": '["b", "a"]', "list": "[[2], [1]]",
+             "range": "[1..3, 0..2]", "opt": "[?2, ?1]", "obj": "[new { a: 2 }, new { a: 1 }]"}
+    for lit in elems.values():
+        for m in ["sort()", "join(\",\")", "to_string()", "to_json()", "contains(c[0])", "last()", "pop()", "pop_front()", "len()",
+                  "concat(c)", "push(c[0])", "push_front(c[0])", "insert(0, c[0])", "remove(0)"]:
+            out.append(f"fn main() {{ let c = {lit}; println(c.{m}); println(c); }}")
+            out.append(f"fn main() {{ let c = {lit}; c.{m}; println(c); }}")
     return out
 
 
